@@ -22,6 +22,7 @@ import Vlsp.Model.Server
 import Vlsp.Model.DataDir
 import Vlsp.Model.Sites
 import Vlsp.Model.Parsers
+import Vlsp.Model.Pos
 import Vlsp.Model.Config
 
 /-! Line-protocol plumbing shared by the driver's op tables. -/
@@ -451,6 +452,25 @@ def pepOf (pairs : List (Text × Text)) (dep : Text) : Parsers.Pep :=
     | _ => .bad
   | some (_, ['U']) => .url
   | _ => .bad
+
+mutual
+def allNodes : Node → List Node
+  | .mk i cs => Node.mk i cs :: allNodesList cs
+def allNodesList : List Node → List Node
+  | [] => []
+  | c :: rest => allNodes c ++ allNodesList rest
+end
+
+/-- `x.hyp <eco> <text> <dump>` : how many `string` nodes of the real tree satisfy the premise of the location theorems -/
+def hypStep (op : String) (f : List Text) : Option String :=
+  match op, f with
+  | "x.hyp", [_, text, dump] =>
+    match treeOfDump dump with
+    | none => some "strings=0 ok=0"
+    | some tree =>
+      let ss := (allNodes tree).filter fun n => n.kind == "string"
+      some s!"strings={ss.length} ok={(ss.filter (Pos.quotedNodeB text)).length}"
+  | _, _ => none
 
 /-- `x.parse <eco> <text> <dump> (<requirement> <answer>)*` : the parser model on the real syntax tree -/
 def parseStep (op : String) (f : List Text) : Option String :=
